@@ -19,19 +19,24 @@ impl GeneratorOps for Shade {
         let mut shade = Vec::new();
         let (r, g, b) = rgb.as_f64();
 
-        if !(0_f64..=1_f64).contains(&factor) {
+        // NaN, zero (a zero step never reaches black) and anything outside ]0, 1] are not factors
+        if !(factor > 0_f64 && factor <= 1_f64) {
             return Err(Error::Generator);
         }
 
-        let mut f = 1_f64;
-        while f >= 0_f64 {
+        // the i-th shade is the colour moved i * factor of the way to black. Computing it from the
+        // index (rather than subtracting the factor repeatedly) keeps the last step from being lost
+        let steps = (1_f64 / factor).floor();
+        let mut i = 0_f64;
+        while i <= steps {
+            let f = 1_f64 - i * factor;
             shade.push(Rgb {
-                r: (r * f) as u8,
-                g: (g * f) as u8,
-                b: (b * f) as u8,
+                r: (r * f).round() as u8,
+                g: (g * f).round() as u8,
+                b: (b * f).round() as u8,
             });
 
-            f -= factor;
+            i += 1_f64;
         }
 
         Ok(Shade(shade))
